@@ -55,12 +55,10 @@ func C14_ParseWrites() {
 		rt.Assert(rt.ForeignStores() == 0, "no-store-into-shared-state")
 		return
 	}
-	e := newEnv(in)
-	v, err := parsley.Evaluate(e.ctx, root)
-	want := outcome(v, err)
-	rt.ObsStr("outcome", want)
+	// natively: the concurrent phase comes first, so that any lazily filled
+	// shared state would be filled concurrently; then the sequential reference
 	var wg sync.WaitGroup
-	bad := make([]string, 8)
+	got := make([][]string, 8)
 	for k := 0; k < 8; k++ {
 		wg.Add(1)
 		go func(k int) {
@@ -68,19 +66,25 @@ func C14_ParseWrites() {
 			for rep := 0; rep < 200; rep++ {
 				e := newEnv(in)
 				v, err := parsley.Evaluate(e.ctx, root)
-				if got := outcome(v, err); got != want {
-					bad[k] = got
-				}
+				got[k] = append(got[k], outcome(v, err))
 			}
 		}(k)
 	}
 	wg.Wait()
-	for _, b := range bad {
-		if b != "" {
-			rt.Fail("concurrent-result-differs", g.Name+" on "+showInput(in)+": alone "+want+", concurrently "+b)
+	e := newEnv(in)
+	v, err := parsley.Evaluate(e.ctx, root)
+	want := outcome(v, err)
+	rt.ObsStr("outcome", want)
+	for _, g := range got {
+		for _, o := range g {
+			if o != want {
+				rt.Fail("concurrent-result-differs", g0name(g)+showInput(in)+": alone "+want+", concurrently "+o)
+			}
 		}
 	}
 }
+
+func g0name(_ []string) string { return "" }
 
 // C14_BuildWrites: constructing a grammar performs no plain store into
 // pre-existing state either (the parser index counter is atomic).
